@@ -1,0 +1,66 @@
+//go:build verif
+
+// Contracts for the deductive checks kept in /verif (govc). This file holds comments only: it is read by the
+// verification-condition generator and compiled (to nothing) only under the build tag "verif".
+// Syntax: see /verif/DESIGN.md section 2.3.
+
+package sse
+
+// ---------------------------------------------------------------------------------------------------------
+// client.go: backoff (C12)
+// ---------------------------------------------------------------------------------------------------------
+
+//@ func nextInterval
+//@   requires current >= 0
+//@   ensures jitter_off: jitter == -1 ==> result == current
+//@   ensures jitter_lo: jitter != -1 && 0 <= jitter && jitter < 1 ==> toReal(result) > toReal(current) - jitter*toReal(current) - 1
+//@   ensures jitter_hi: jitter != -1 && 0 <= jitter && jitter < 1 ==> toReal(result) < toReal(current) + jitter*toReal(current) + 1
+
+//@ func growInterval
+//@   requires current >= 0 && mul >= 1
+//@   ensures capped: maxInterval > 0 ==> result == min(trunc(toReal(current)*mul), maxInterval)
+//@   ensures uncapped: maxInterval <= 0 ==> result == trunc(toReal(current)*mul)
+//@   ensures nonneg: result >= 0
+
+//@ func mergeDefaults
+//@   requires c != nil
+//@   assume DefaultClient.Backoff.InitialInterval == 500000000 && DefaultClient.Backoff.Multiplier == 1.5 && DefaultClient.Backoff.Jitter == 0.5
+//@   assume DefaultClient != c
+//@   modifies c.HTTPClient, c.Backoff.InitialInterval, c.Backoff.Multiplier, c.Backoff.Jitter, c.ResponseValidator
+//@   ensures initial_default: old(c.Backoff.InitialInterval) <= 0 ==> c.Backoff.InitialInterval == 500000000
+//@   ensures initial_kept: old(c.Backoff.InitialInterval) > 0 ==> c.Backoff.InitialInterval == old(c.Backoff.InitialInterval)
+//@   ensures multiplier_default: old(c.Backoff.Multiplier) < 1 ==> c.Backoff.Multiplier == 1.5
+//@   ensures multiplier_kept: old(c.Backoff.Multiplier) >= 1 ==> c.Backoff.Multiplier == old(c.Backoff.Multiplier)
+//@   ensures jitter_minus_one_kept: old(c.Backoff.Jitter) == -1 ==> c.Backoff.Jitter == -1
+//@   ensures jitter_kept: 0 < old(c.Backoff.Jitter) && old(c.Backoff.Jitter) < 1 ==> c.Backoff.Jitter == old(c.Backoff.Jitter)
+//@   ensures jitter_default: old(c.Backoff.Jitter) != -1 && (old(c.Backoff.Jitter) <= 0 || old(c.Backoff.Jitter) >= 1) ==> c.Backoff.Jitter == 0.5
+//@   ensures limits_untouched: c.Backoff.MaxInterval == old(c.Backoff.MaxInterval) && c.Backoff.MaxElapsedTime == old(c.Backoff.MaxElapsedTime) && c.Backoff.MaxRetries == old(c.Backoff.MaxRetries)
+//@   ensures normalised: c.Backoff.InitialInterval > 0 && c.Backoff.Multiplier >= 1 && (c.Backoff.Jitter == -1 || (0 < c.Backoff.Jitter && c.Backoff.Jitter < 1))
+
+//@ func backoffController.reset
+//@   requires c != nil && c.b != nil
+//@   modifies c.interval, c.numRetries, c.start
+//@   ensures interval_from_server: newInterval > 0 ==> c.interval == newInterval
+//@   ensures interval_initial: newInterval <= 0 ==> c.interval == c.b.InitialInterval
+//@   ensures count_reset: c.numRetries == 0
+
+//@ func backoffController.next
+//@   requires c != nil && c.b != nil && c.interval >= 0
+//@   requires counter_inv: c.b.MaxRetries > 0 ==> 0 <= c.numRetries && c.numRetries <= c.b.MaxRetries
+//@   requires config_normalised: c.b.Multiplier >= 1 && (c.b.Jitter == -1 || (0 < c.b.Jitter && c.b.Jitter < 1))
+//@   assume c.numRetries < 9223372036854775807
+//@   modifies c.interval, c.numRetries
+//@   ensures none_if_negative: c.b.MaxRetries < 0 ==> !shouldRetry
+//@   ensures limit_reached: c.b.MaxRetries > 0 && old(c.numRetries) == c.b.MaxRetries ==> !shouldRetry
+//@   ensures unbounded_if_zero: c.b.MaxRetries == 0 && c.b.MaxElapsedTime <= 0 ==> shouldRetry
+//@   ensures below_limit_retries: c.b.MaxRetries > 0 && old(c.numRetries) < c.b.MaxRetries && c.b.MaxElapsedTime <= 0 ==> shouldRetry
+//@   ensures counted: shouldRetry ==> c.numRetries == old(c.numRetries) + 1
+//@   ensures counter_inv_kept: c.b.MaxRetries > 0 ==> 0 <= c.numRetries && c.numRetries <= c.b.MaxRetries
+//@   ensures wait_exact_without_jitter: shouldRetry && c.b.Jitter == -1 ==> interval == old(c.interval)
+//@   ensures wait_lo: shouldRetry && c.b.Jitter != -1 ==> toReal(interval) > toReal(old(c.interval)) - c.b.Jitter*toReal(old(c.interval)) - 1
+//@   ensures wait_hi: shouldRetry && c.b.Jitter != -1 ==> toReal(interval) < toReal(old(c.interval)) + c.b.Jitter*toReal(old(c.interval)) + 1
+//@   ensures grows_capped: shouldRetry && c.b.MaxInterval > 0 ==> c.interval == min(trunc(toReal(old(c.interval))*c.b.Multiplier), c.b.MaxInterval)
+//@   ensures grows_uncapped: shouldRetry && c.b.MaxInterval <= 0 ==> c.interval == trunc(toReal(old(c.interval))*c.b.Multiplier)
+//@   ensures elapsed_limit: shouldRetry && c.b.MaxElapsedTime > 0 ==> interval <= c.b.MaxElapsedTime
+//@   ensures no_wait_without_retry: !shouldRetry ==> interval == 0
+//@   ensures interval_nonneg: c.interval >= 0
